@@ -37,7 +37,11 @@ impl<'a> Ctx<'a> {
     }
     fn short(&self, ent: Option<u64>) -> String { match ent { Some(e) => self.rig.dm.short(e), None => UNKNOWN_ENT.to_string() } }
 
+    /// a row whose field is changed after signing keeps its signature bytes: its signed content gets a
+    /// date no other row of the case has, so that a signature (= tag) never names two different rows
+    fn nonce(&self, tamper: Tamper) -> i64 { if tamper == Tamper::Field { 100_003 * (self.next as i64 + 1) } else { 0 } }
     fn node(&mut self, id: u64, room: Option<u64>, ent: Option<u64>, json: Option<String>, mdate: i64, author: u64, tamper: Tamper) -> NodeIt {
+        let mdate = mdate + self.nonce(tamper);
         let mut node = Node { id: cuid(self.case, id), room_id: room.map(|r| cuid(self.case, r)), cdate: mdate - 7, mdate,
             _entity: self.short(ent), _json: json, _binary: None, verifying_key: vec![], _signature: vec![], _local_id: None };
         node.sign(self.rig.keys.sk(author)).unwrap();
@@ -52,6 +56,7 @@ impl<'a> Ctx<'a> {
         NodeIt { tag, id, room, ent, mdate, author, sig_ok: node.verify().is_ok(), too_big, node }
     }
     fn edge(&mut self, src: u64, ent: Option<u64>, label: u64, dest: u64, cdate: i64, author: u64, tamper: Tamper) -> EdgeIt {
+        let cdate = cdate + self.nonce(tamper);
         let mut edge = Edge { src: cuid(self.case, src), src_entity: self.short(ent), label: format!("{}", 40 + label), dest: cuid(self.case, dest), cdate, ..Default::default() };
         edge.sign(self.rig.keys.sk(author)).unwrap();
         let mut cdate = cdate;
@@ -64,6 +69,7 @@ impl<'a> Ctx<'a> {
         EdgeIt { tag, src, ent, label, dest, cdate, author, sig_ok: edge.verify().is_ok(), edge }
     }
     fn ndel(&mut self, room: u64, id: u64, ent: Option<u64>, mdate: i64, date: i64, author: u64, tamper: Tamper) -> NDelIt {
+        let date = date + self.nonce(tamper);
         let n = Node { id: cuid(self.case, id), mdate, _entity: self.short(ent), ..Default::default() };
         let mut entry = NodeDeletionEntry::build(cuid(self.case, room), &n, date, self.rig.keys.sk(author));
         let mut date = date;
@@ -76,6 +82,7 @@ impl<'a> Ctx<'a> {
         NDelIt { tag, room, id, ent, mdate, date, author, sig_ok: entry.verify().is_ok(), entry }
     }
     fn edel(&mut self, room: u64, e: &EdgeIt, date: i64, author: u64, tamper: Tamper) -> EDelIt {
+        let date = date + self.nonce(tamper);
         let mut entry = EdgeDeletionEntry::build(cuid(self.case, room), &e.edge, date, self.rig.keys.sk(author));
         let mut date = date;
         match tamper {
@@ -556,7 +563,7 @@ async fn main() {
     let rig = Rig::start("C02", "b", MODEL).await;
     let rig2 = Rig::start("C02", "p", MODEL).await;
     let mut perm_runs = 0usize;
-    let n = scale(700, 7000);
+    let n = scale(600, 7000);
     let mut case: u64 = 0;
     let mut which = 0;
     loop {
